@@ -52,6 +52,19 @@ def command_property(prop, tier, seed, selkey=None, level="proof"):
         for r in selected[:1]:
             rep.samples.append({"obligation": r["name"], "clause": r["clause"], "goal": r.get("goal"), "verdict": r["status"],
                                 "backend": r.get("backend"), "time_s": r.get("time_s")})
+    if prop in ("C06", "C07"):
+        # the statement's last sentence: the algebra of the operators, as lemmas over the spec functions proved above
+        try:
+            from . import algebra
+
+            for r in (algebra.lemmas(repo) if prop == "C06" else algebra.arith_lemmas(repo)):
+                rep.add_vc(r["name"], r["status"], r["function"], r["clause"], r["backend"], r["time_s"], detail={"goal": r.get("goal"), "reason": r.get("reason")})
+                if r["status"] == "sat":
+                    rep.violations.append({"obligation": r["name"], "how": "lemma refuted", "detail": {"goal": r.get("goal")}, "confirmed": False})
+                elif r["status"] != "unsat":
+                    rep.undecided.append({"obligation": r["name"], "reason": r.get("reason")})
+        except Exception as e:
+            rep.errors.append("algebra lemmas: %s: %s" % (type(e).__name__, e))
     # ---- counter-models: replay on the real code
     tasks = [(cmd, case) for (r, cmd, case) in pending if case is not None]
     evals = cmdprops.evaluate_cases(tasks, root) if tasks else []
@@ -650,7 +663,7 @@ def parser_property(prop, tier, seed):
             continue
         fails += 1
         v = {"obligation": "mpilot/parser/parser.py::Parser.parse/bounded:%s" % bad[0][0], "function": "mpilot/parser/parser.py::Parser.parse",
-             "how": "bounded-concrete", "case": {"sources": c["sources"], "same_parser": c["same_parser"], "layout": c["layout"]},
+             "how": "bounded-concrete", "case": c,
              "real": o, "violated": sorted(set(b[0] for b in bad)), "violated_detail": bad[:5], "confirmed": True}
         # signature of the recorded finding: text rejected with SyntaxError whose unquoted value ends in a number token after other tokens
         if prop == "C10" and all(b[0] == "value" and "rejected with SyntaxError" in b[2] for b in bad):
@@ -668,7 +681,7 @@ def parser_property(prop, tier, seed):
             if bad:
                 fails += 1
                 rep.violations.append({"obligation": "mpilot/parser/parser.py::Parser.parse/bounded:%s" % ("rejects-malformed" if bad[0][0] == "value" else bad[0][0]),
-                                       "function": "mpilot/parser/parser.py::Parser.parse", "how": "bounded-concrete", "case": {"sources": c["sources"], "corruption": c["corruption"]},
+                                       "function": "mpilot/parser/parser.py::Parser.parse", "how": "bounded-concrete", "case": c,
                                        "real": o, "violated": [b[0] for b in bad], "violated_detail": bad, "confirmed": True})
         cases = cases + cc
     rep.bounded = {"label": "bounded stand-in for the PLY lex/yacc engines (never counted as proved)", "evaluations": len(cases), "distinct_nontrivial": len(distinct),
